@@ -23,15 +23,16 @@ import (
 // Prog is the resolved program: every non-test package of the module under -repo,
 // parsed and type-checked from the CURRENT working tree on every run.
 type Prog struct {
-	Repo    string
-	ModPath string
-	Fset    *token.FileSet
-	Pkgs    []*packages.Package // repo packages, sorted by path
-	ByRel   map[string]*packages.Package
-	GOARCH  string
-	Sizes   types.Sizes
-	Renamed []string // "kind current -> reference" for identifiers canonicalised before analysis
-	Inlined []string // "helper inlined into caller" (inline.go)
+	Repo      string
+	ModPath   string
+	Fset      *token.FileSet
+	Pkgs      []*packages.Package // repo packages, sorted by path
+	ByRel     map[string]*packages.Package
+	GOARCH    string
+	Sizes     types.Sizes
+	Renamed   []string // "kind current -> reference" for identifiers canonicalised before analysis
+	Inlined   []string // "helper inlined into caller" (inline.go)
+	PreInline *Prog    // the tree as it was written, when helpers have been substituted in this one
 
 	ssaProg  *ssa.Program
 	ssaPkgs  map[string]*ssa.Package
@@ -80,6 +81,12 @@ func Load(repo, goarch string, overlay map[string][]byte) (*Prog, error) {
 		// else: the reverse renaming did not type-check (name clash): analyse the tree as it is
 	}
 	// extracted helpers are substituted for their calls (inline.go); up to three rounds, for a helper of a helper and several helpers in one statement
+	orig := p
+	defer func() {
+		if p != orig && p != nil {
+			p.PreInline = orig
+		}
+	}()
 	forceBlock := map[string]bool{}
 	allBlock := false
 	for round, attempts := 0, 0; round < 3 && attempts < 8; attempts++ {
